@@ -45,6 +45,9 @@ BINDS = ["ctx", "page", "assign", "defarg", "encl", "for", "module", "import"]
 SITES = [
     "body", "def", "selfdef", "nested", "anon@body", "anon@def", "named", "callbody@body", "callbody@def",
     "ctl@body", "ctl@def", "attr@body", "attr@def", "filter@body", "filter@def",
+    # a top-level def called by its bare name ONLY from a closure written in the body (and, as control, also directly)
+    "def<callbody", "def<anon", "def<anon-def", "def<calldef",
+    "def<callbody+direct", "def<anon+direct", "def<anon-def+direct", "def<calldef+direct",
 ]
 STYLES = ["V", "O", "C"]
 # callable kind of the reader, used in signatures
@@ -52,12 +55,16 @@ SITE_KIND = {
     "body": "body", "def": "topdef", "selfdef": "selfdef", "nested": "nested", "anon@body": "anon", "anon@def": "anon",
     "named": "named", "callbody@body": "callbody", "callbody@def": "callbody", "ctl@body": "body", "ctl@def": "topdef",
     "attr@body": "body", "attr@def": "topdef", "filter@body": "body", "filter@def": "topdef",
+    "def<callbody": "topdef-called-only-from-call-body", "def<anon": "topdef-called-only-from-anonymous-block",
+    "def<anon-def": "topdef-called-only-from-def-in-anonymous-block", "def<calldef": "topdef-called-only-from-def-in-call",
+    "def<callbody+direct": "topdef-called-from-body-and-call-body", "def<anon+direct": "topdef-called-from-body-and-anonymous-block",
+    "def<anon-def+direct": "topdef-called-from-body-and-def-in-anonymous-block", "def<calldef+direct": "topdef-called-from-body-and-def-in-call",
 }
 TAGS = {"ctx": "C", "page": "P", "assign": "A", "defarg": "D", "encl": "E", "for": "L", "module": "M", "import": "N"}
 
 BOUNDS = {
     "quick": {
-        "res": "all subsets of <=2 of the 8 binding sites x {plain, builtin} name x 15 read sites x styles {value, or-default, call} x strict on/off; "
+        "res": "all subsets of <=2 of the 8 binding sites x {plain, builtin} name x 22 read sites x styles {value, or-default, call} (the 7 called-from-a-closure sites: or-default and call, their controls or-default only) x strict on/off; "
                "+ re-assignment variant for every subset holding a body assignment",
         "stmt": "48 statement forms x placement {body, top-level def} x context {r, r+b, neither} x strict on/off",
         "reread": "16 expression binders x pieces {block later statement, block same statement, ${} expression, control line, tag attribute} x read "
@@ -68,7 +75,7 @@ BOUNDS = {
         "flagname": "24 read sites x 10 spellings (9 escape-flag names + control) x {present, absent} x strict on/off, minus str-present",
     },
     "thorough": {
-        "res": "all 256 subsets of the 8 binding sites x {plain, builtin} x 15 read sites x 3 styles x strict on/off x binding statement "
+        "res": "all 256 subsets of the 8 binding sites x {plain, builtin} x 22 read sites x 3 styles x strict on/off x binding statement "
                "{before, after} the read for body/enclosing assignments x re-assignment variant",
         "stmt": "48 statement forms x placement {body, top-level def, nested def, anonymous block, call body} x context {r, r+b, neither} x strict on/off",
         "reread": "as quick x container {body, top-level def, nested def, anonymous block, call body}",
@@ -115,7 +122,9 @@ ASSUMPTIONS = [
     "DONT_CARE: passing loop to a render entry point of a template constructed with enable_loop=False whose <%page> tag re-enables the loop "
     "context (documentation: 'it's safe to pass the name loop to render' with enable_loop=False; mako's own tests do it)",
     "DONT_CARE (not generated): a context variable called str (it shadows the name the default filter is written with: C02); "
-    "DONT_CARE (not generated): a def called by its bare name from another def; a body-level loop target that is also assigned in a <% %> block "
+    "a top-level def called by its bare name from a closure written in the body (call body, anonymous block, def inside them) counts as "
+    "called from the body: it sees the page arguments and current <% %> values; from a named block or another top-level def: not generated",
+    "DONT_CARE (not generated): a def called by its bare name from another top-level def or a named block; a body-level loop target that is also assigned in a <% %> block "
     "while a def called by name reads it; value-style reads of an imported def (its text form holds addresses); filters that return non-strings",
     "the dict given to render(**d) cannot be reached by the library (keyword call), so 'caller's data unchanged' is checked on a caller-owned "
     "Context passed to render_context (data, kwargs, key set) and through a plain-context witness read at the end of every program",
@@ -180,7 +189,7 @@ def build_res(al, p):
     nm = al.builtin if p["builtin"] else al.name
     V = lambda tag: al.val(tag, style)  # noqa
     base, _, where = site.partition("@")
-    in_def = site in ("def", "selfdef", "nested") or where == "def"
+    in_def = site in ("def", "selfdef", "nested") or where == "def" or site.startswith("def<")
 
     # --- the reading statements, in the reader's own callable
     if base == "filter":
@@ -223,6 +232,7 @@ def build_res(al, p):
         return [assign("E")] + stmts
 
     invoke = None  # body statements that run the reader
+    invoke_again = None  # the same once more (re-assignment variant) when def names must differ
     if base in ("body", "ctl", "attr", "filter") and not in_def:
         sibling_defs()
         invoke = core_read
@@ -231,6 +241,31 @@ def build_res(al, p):
         args = V("D") if "defarg" in binds else ""
         defs.append(["def", "f", params, with_encl(core_read)])
         invoke = [E(("self.f(%s)" if base == "selfdef" else "f(%s)") % args)]
+    elif base.startswith("def<"):
+        via = base[4:].split("+")[0]
+        params = nm if "defarg" in binds else ""
+        args = V("D") if "defarg" in binds else ""
+        defs.append(["def", "f", params, with_encl(core_read)])
+        callf = E("f(%s)" % args)
+
+        def via_closure(k):
+            inner, w2 = "inner" + k, "w2" + k
+            if via == "callbody":
+                if not k:
+                    defs.append(["def", "w", "", [E("caller.body()")]])
+                return [["call", "w()", None, [callf]]]
+            if via == "anon":
+                return [["block", None, [callf]]]
+            if via == "anon-def":
+                return [["block", None, [["def", inner, "", [callf]], E(inner + "()")]]]
+            if via == "calldef":
+                defs.append(["def", w2, "", [E("caller.%s()" % inner)]])
+                return [["call", w2 + "()", None, [["def", inner, "", [callf]]]]]
+            raise ValueError(site)
+
+        direct = [callf] if base.endswith("+direct") else []
+        invoke = direct + via_closure("")
+        invoke_again = direct + via_closure("b") if p.get("twice") else None
     elif base == "nested":
         params = nm if "defarg" in binds else ""
         args = V("D") if "defarg" in binds else ""
@@ -275,7 +310,7 @@ def build_res(al, p):
         body.append(assign("A"))
     if p.get("twice"):
         # (two anonymous blocks may not start on the same line: their generated names would collide)
-        body += [T("/\n"), ["code", "%s = %s" % (nm, V("A2"))]] + invoke
+        body += [T("/\n"), ["code", "%s = %s" % (nm, V("A2"))]] + (invoke_again or invoke)
     if in_def:
         # a sibling def called by its bare name: sees the context (+ the body's values), never f's locals or arguments
         defs.append(["def", "g", "", [T("{"), E(benign_read(nm, style, "g")), T("}")]])
@@ -303,6 +338,11 @@ def build_res(al, p):
     return {"files": files, "main": "main.html"}, ctx
 
 
+# Fails on the unchanged tree (a top-level def called only from a def written inside <%call> gets the bare context): reported;
+# enumerated once the finding is registered (signature prefix "res:topdef-called-only-from-def-in-call:") or the fix is applied
+RES_SITES_PENDING = ["def<calldef"]
+
+
 def res_params(tier):
     """the enumeration, simplest first"""
     maxk = 2 if tier == "quick" else len(BINDS)
@@ -310,11 +350,18 @@ def res_params(tier):
         for binds in itertools.combinations(BINDS, k):
             for builtin in (False, True):
                 for site in SITES:
+                    if site in RES_SITES_PENDING:
+                        continue
                     for style in STYLES:
                         if site.startswith("filter") and style != "C":
                             continue  # a filter is called: only callables are meaningful there
                         if "import" in binds and style != "C":
                             continue  # an imported def is a callable whose text form holds addresses
+                        if tier == "quick" and site.startswith("def<"):
+                            # quick budget: the called-only-from-a-closure sites without the plain value style,
+                            # their also-called-from-the-body controls with the or-default style only
+                            if style == "V" or (site.endswith("+direct") and style != "O"):
+                                continue
                         lates = [[]]
                         if tier != "quick":
                             cand = [b for b in ("assign", "encl") if b in binds]
